@@ -22,7 +22,7 @@ func init() { register(c19{}) }
 
 func (c19) ID() string { return "C19" }
 func (c19) Cases(t fw.Tier) int {
-	return tierN(t, 15000, 600000)
+	return tierN(t, 40000, 1200000)
 }
 func (c19) Processes(t fw.Tier) int { return tierN(t, 2, 4) }
 func (c19) Rule() string {
